@@ -70,6 +70,22 @@ func runC01(r *ev.Run) {
 		}
 	}
 
+	// (ii-a) brim-full leaves (see brim.go): several selects on one handle
+	for _, ps := range []int{512, 1024, 4096} {
+		si, err := brimImage(ps)
+		if err != nil {
+			r.Harness("brim image: %v", err)
+			continue
+		}
+		if err := Conform(si.Spec, si.Img); err != nil {
+			r.Harness("brim image conformance: %v", err)
+			continue
+		}
+		r.Validated(1)
+		r.StateBytes(si.Img.Bytes)
+		c01Image(r, si, "t1", columnLists(t1names, 1))
+	}
+
 	// (ii-b) ordinary columns that are named like the rowid keywords: the declared column wins
 	for _, ps := range []int{512, 4096} {
 		t5 := dbgen.Table{Name: "t5", SQL: "CREATE TABLE t5 (oid TEXT, rowid INTEGER, label, c4)", NCols: 4, ColNames: []string{"oid", "rowid", "label", "c4"}, RowidAlias: -1, Defaults: make([]interface{}, 4)}
